@@ -1,0 +1,138 @@
+//go:build verif
+
+package combinator
+
+// Contracts for the deductive verifier in /verif (build tag "verif" only; this
+// file contains no declarations and is not part of any normal build).
+//
+//@ mode int
+//@ implicit [C06]
+//
+// Abstract model of a transactional lexer (proved to be implemented by lexer.TLexer, see
+// lexer/zz_contracts_verif.go "implements"): the position of the current token, the number of tokens
+// pulled from the underlying scanner so far, and the stack of saved positions.
+//@ ghost pos(l RollbackLexer) int
+//@ ghost cached(l RollbackLexer) int
+//@ ghost depth(l RollbackLexer) int
+//@ ghost saved(l RollbackLexer, i int) int
+//@ ghost total(p Parser) bool
+//@ pred linv(l RollbackLexer) bool := l != nil && depth(l) >= 0 && -1 <= pos(l) && pos(l) <= cached(l) - 1
+//@     && (forall i :: 0 <= i && i < depth(l) ==> -1 <= saved(l, i) && saved(l, i) <= cached(l) - 1)
+//@ pred savedKept(l RollbackLexer, n int) bool := forall i :: 0 <= i && i < n ==> saved(l, i) == old(saved(l, i))
+//
+//@ type RollbackLexer.Next [C13,C06]
+//@   params self
+//@   requires linv(self)
+//@   modifies pos(self), cached(self)
+//@   ensures[advance] result ==> pos(self) == old(pos(self)) + 1
+//@   ensures[stay]    !result ==> pos(self) == old(pos(self))
+//@   ensures[inv]     cached(self) >= old(cached(self)) && linv(self)
+//@   ensures[nonempty] !result ==> pos(self) >= 0
+//@ type RollbackLexer.Err [C13,C06] pure
+//@   params self
+//@   requires linv(self) && pos(self) >= 0
+//@ type RollbackLexer.From [C13,C06] pure
+//@   params self
+//@   requires linv(self) && pos(self) >= 0
+//@ type RollbackLexer.To [C13,C06] pure
+//@   params self
+//@   requires linv(self) && pos(self) >= 0
+//@ type RollbackLexer.Token [C13,C06] pure
+//@   params self
+//@   requires linv(self) && pos(self) >= 0
+//@ type RollbackLexer.Snapshot [C13]
+//@   params self
+//@   requires linv(self)
+//@   modifies depth(self), saved_row(self)
+//@   ensures depth(self) == old(depth(self)) + 1 && saved(self, old(depth(self))) == pos(self) && savedKept(self, old(depth(self))) && linv(self)
+//@ type RollbackLexer.Commit [C13]
+//@   params self
+//@   requires linv(self) && depth(self) >= 1
+//@   modifies depth(self)
+//@   ensures depth(self) == old(depth(self)) - 1 && linv(self)
+//@ type RollbackLexer.Rollback [C13]
+//@   params self
+//@   requires linv(self) && depth(self) >= 1
+//@   modifies depth(self), pos(self)
+//@   ensures depth(self) == old(depth(self)) - 1 && pos(self) == old(saved(self, depth(self) - 1)) && linv(self)
+//
+// Every Parser keeps the transaction discipline: it returns with the snapshot stack exactly as it
+// found it (same depth, same saved positions), never un-reads the scanner, and a parser marked
+// total never fails.
+//@ type Parser [C13,C06]
+//@   params self, input
+//@   requires linv(input)
+//@   modifies pos(input), cached(input), depth(input), saved_row(input), allelems([]Node{})
+//@   ensures[balanced] linv(input) && depth(input) == old(depth(input)) && savedKept(input, depth(input)) && cached(input) >= old(cached(input))
+//@   ensures[total]    total(self) ==> result1 == nil
+//@ pred notTotal(self Parser) bool := !total(self)
+//
+//@ type Token.From [C13,C06] pure trusted
+//@   params self
+//@ type Token.To [C13,C06] pure trusted
+//@   params self
+//@ type TokenWrapper.Wrap [C13,C06] pure trusted
+//@   params self, tok
+//
+// Functions handed to Accept and Fmap are assumed not to touch the lexer.
+//@ dyncall func(combinator.Token) bool pure
+//@ dyncall func([]combinator.Node) []combinator.Node pure
+//
+//@ func Ok [C13,C06] trusted
+//@   ensures total(result)
+//@ func Ok$1 [C13,C06] implements Parser
+//@   ensures[never_fails] result1 == nil && pos(input) == old(pos(input))
+//
+// Look-ahead: consumes nothing, whatever the asserted parser did.
+//@ func Assert$1 [C13,C06] implements Parser
+//@   requires[not_total] !total(self)   // only parsers built by Ok() are marked total
+//@   ensures[pos_restored] pos(input) == old(pos(input))
+//
+//@ func Not$1 [C13,C06] implements Parser
+//@   requires[not_total] !total(self)   // only parsers built by Ok() are marked total
+//@ func Drop$1 [C13,C06] implements Parser
+//@   requires[not_total] !total(self)   // only parsers built by Ok() are marked total
+//
+// Ordered choice with committed alternatives: a failing gate is rolled back before the next one
+// is tried; the last gate must be total (then the trailing panic is unreachable).
+//@ func Choose$1 [C13,C06] implements Parser
+//@   requires[not_total] !total(self)   // only parsers built by Ok() are marked total
+//@   requires[last_total] len(choices) >= 1 && total(choices[len(choices)-1].Gate)
+//@   loop 0 invariant[alt] -1 <= rangeindex && rangeindex <= len(choices) - 2 && linv(input) && depth(input) == old(depth(input))
+//@       && pos(input) == old(pos(input)) && savedKept(input, depth(input)) && cached(input) >= old(cached(input))
+//
+// Plain ordered choice: on failure of every alternative the input is where it was.
+//@ func OneOf$1 [C13,C06] implements Parser
+//@   requires[not_total] !total(self)   // only parsers built by Ok() are marked total
+//@   requires len(args) >= 1
+//@   ensures[fail_restores] result1 != nil ==> pos(input) == old(pos(input))
+//@   loop 0 invariant[alt] -1 <= rangeindex && rangeindex < len(args) - 1 && len(args) >= 1 && linv(input) && depth(input) == old(depth(input))
+//@       && pos(input) == old(pos(input)) && savedKept(input, depth(input)) && cached(input) >= old(cached(input)) && pErr != nil
+//
+//@ func And$1 [C13,C06] implements Parser
+//@   requires[not_total] !total(self)   // only parsers built by Ok() are marked total
+//
+// Repetition: the gate that ends the repetition is rolled back.
+//@ func Any$1 [C13,C06] implements Parser
+//@   requires[not_total] !total(self)   // only parsers built by Ok() are marked total
+//@   loop 0 invariant[rep] linv(input) && depth(input) == old(depth(input)) && savedKept(input, depth(input)) && cached(input) >= old(cached(input))
+//
+// Separator lists: never fails; a trailing separator (or a separator followed by a failing element) is given back.
+//@ func SeparatedBy$1 [C13,C06] implements Parser
+//@   requires[not_total] !total(self)   // only parsers built by Ok() are marked total
+//@   ensures[never_fails] result1 == nil
+//@   loop 0 invariant[rep] linv(input) && depth(input) == old(depth(input)) && savedKept(input, depth(input)) && cached(input) >= old(cached(input))
+//
+//@ func SurroundedBy$1 [C13,C06] implements Parser
+//@   requires[not_total] !total(self)   // only parsers built by Ok() are marked total
+//
+// Accept consumes exactly one token when the scanner has one, none otherwise.
+//@ func Accept$1 [C13,C06] implements Parser
+//@   requires[not_total] !total(self)   // only parsers built by Ok() are marked total
+//@   ensures[one_token] pos(input) == old(pos(input)) + 1 || pos(input) == old(pos(input))
+//
+//@ func Fmap$1 [C13,C06] implements Parser
+//@   requires[not_total] !total(self)   // only parsers built by Ok() are marked total
+//
+//@ canary func (*Error).From
+//@   ensures false
